@@ -67,6 +67,101 @@ theorem cache_sound (g : Graph) (st : LState) (x : Name) (fuel : Nat) (h : Cache
 
 example : (load 7 diamond {} 0) = (.ok, ⟨[0, 2, 1, 3], []⟩) := by decide
 
+/-- From an empty in-progress set (and a sound cache, e.g. the empty one) the load succeeds
+exactly when every library reachable from `x` is healthy and no dependency cycle is reachable
+from `x`. -/
+theorem load_ok_iff (g : Graph) (st : LState) (x : Name) (fuel : Nat) (hfuel : g.length + 1 ≤ fuel)
+    (hc : CacheOK g st) (hip : st.inProgress = []) :
+    (load fuel g st x).1 = .ok ↔
+      (∀ y, Reachable g x y → ∃ deps, g.node y = .healthy deps) ∧ ¬ HasCycleFrom g x := by
+  constructor
+  · intro h
+    exact ((cache_sound g st x fuel hc).2.2.1 h).2.healthy_acyclic
+  · rintro ⟨hh, hcyc⟩
+    rw [load_eq_dfs', hip]
+    exact dfs_ok_of_healthy_acyclic hh hcyc hfuel
+
+example : (∀ y, Reachable diamond 0 y → ∃ deps, diamond.node y = .healthy deps) ∧ ¬ HasCycleFrom diamond 0 :=
+  (load_ok_iff diamond {} 0 5 (by decide) ⟨by simp, by simp, by simp⟩ rfl).1 (by decide)
+
+/-- A node that is reached along two different paths is not a cycle: if all reachable libraries
+are healthy and there is no cycle, the load succeeds although `d` is a dependency of both `a` and
+`b`, themselves both dependencies of `x` (the second visit finds the cached instance). -/
+theorem diamond_not_cycle (g : Graph) (x a b d : Name) (fuel : Nat) (hfuel : g.length + 1 ≤ fuel)
+    (_hab : a ≠ b) (_ha : a ∈ (g.node x).deps) (_hb : b ∈ (g.node x).deps)
+    (_hda : d ∈ (g.node a).deps) (_hdb : d ∈ (g.node b).deps)
+    (hh : ∀ y, Reachable g x y → ∃ deps, g.node y = .healthy deps) (hcyc : ¬ HasCycleFrom g x) :
+    (load fuel g {} x).1 = .ok :=
+  (load_ok_iff g {} x fuel hfuel ⟨by simp, by simp, by simp⟩ rfl).2 ⟨hh, hcyc⟩
+
+/-- the concrete diamond: 3 is visited once and found in the cache the second time -/
+example : load 5 diamond {} 0 = (.ok, ⟨[0, 2, 1, 3], []⟩) := by decide
+
+/-- The outcome is exactly that of the depth-first traversal `Dfs` of the dependencies in order
+(a relational, fuel-free description: a node in progress is `cyclic`; a cached node is `ok`; the
+dependencies of a node are visited in order and the FIRST outcome that is not `ok` is the node's
+outcome; a healthy node whose dependencies are all `ok` is `ok` and enters the cache; a faulty
+one then faults). In particular the outcome is `cyclic` iff the traversal meets a node in progress
+before it meets any other fault, and every error names a fault that is really reachable: `cyclic`
+a node in progress or a cycle, `notFound` a missing library, and so on. If every reachable library
+is healthy, the outcome is `cyclic` exactly when a cycle is reachable. -/
+theorem load_cyclic_iff (g : Graph) (st : LState) (x : Name) (fuel : Nat) (hfuel : g.length + 1 ≤ fuel) :
+    (∀ r st', load fuel g st x = (r, st') ↔
+      Dfs g st.cache st.inProgress x r st'.cache ∧ st'.inProgress = st.inProgress) ∧
+    ((load fuel g st x).1 = .cyclic ↔ ∃ c', Dfs g st.cache st.inProgress x .cyclic c') ∧
+    Blame g st.inProgress x (load fuel g st x).1 ∧
+    (st.inProgress = [] → CacheOK g st → (∀ y, Reachable g x y → ∃ deps, g.node y = .healthy deps) →
+      ((load fuel g st x).1 = .cyclic ↔ HasCycleFrom g x)) := by
+  have hiff := fun r c' => dfs_iff_Dfs g fuel st.cache st.inProgress x r c' hfuel
+  have hblame : Blame g st.inProgress x (load fuel g st x).1 := by
+    rw [load_eq_dfs']; exact dfs_blame g fuel _ _ x
+  refine ⟨fun r st' => ?_, ?_, hblame, fun hip hcok hh => ?_⟩
+  · rw [load_eq_dfs']
+    constructor
+    · intro h
+      cases h
+      exact ⟨(hiff _ _).1 rfl, rfl⟩
+    · rintro ⟨h, hip⟩
+      have := (hiff _ _).2 h
+      rw [this]
+      cases st'
+      simp_all
+  · rw [load_eq_dfs']
+    constructor
+    · intro h
+      exact ⟨_, (hiff _ _).1 (Prod.ext h rfl)⟩
+    · rintro ⟨c', h⟩
+      rw [(hiff _ _).2 h]
+  · constructor
+    · intro h
+      rw [h, hip] at hblame
+      rcases hblame with ⟨y, hy, _⟩ | hb
+      · cases hy
+      · exact hb
+    · intro hcyc
+      have hne := load_terminates g st x fuel hfuel
+      have hok := (load_ok_iff g st x fuel hfuel hcok hip).1
+      generalize (load fuel g st x).1 = r at hblame hne hok
+      rw [hip] at hblame
+      cases r with
+      | cyclic => rfl
+      | fuel => exact absurd rfl hne
+      | ok => exact absurd hcyc (hok rfl).2
+      | notFound => obtain ⟨y, h1, h2⟩ := hblame; obtain ⟨ds, h3⟩ := hh y h1; rw [h2] at h3; cases h3
+      | io => obtain ⟨y, h1, h2⟩ := hblame; obtain ⟨ds, h3⟩ := hh y h1; rw [h2] at h3; cases h3
+      | «syntax» => obtain ⟨y, h1, h2⟩ := hblame; obtain ⟨ds, h3⟩ := hh y h1; rw [h2] at h3; cases h3
+      | fault => obtain ⟨y, ds', h1, h2⟩ := hblame; obtain ⟨ds, h3⟩ := hh y h1; rw [h2] at h3; cases h3
+
+/-- in `tangled`, loading 0 is cyclic: the traversal derives it, and a cycle is indeed reachable -/
+example : (∃ c', Dfs tangled [] [] 0 .cyclic c') ∧ HasCycleFrom tangled 0 := by
+  have h := load_cyclic_iff tangled {} 0 7 (by decide)
+  refine ⟨h.2.1.1 (by decide), ?_⟩
+  have hb := h.2.2.1
+  rw [show (load 7 tangled {} 0).1 = .cyclic by decide] at hb
+  rcases hb with ⟨y, hy, _⟩ | hb
+  · cases hy
+  · exact hb
+
 /-- MAIN THEOREM. Whatever was attempted before on the same loader — any list of loads of any
 names, each with any amount of fuel, successful or failed — the outcome of loading `x` afterwards
 is the outcome of loading `x` on the fresh loader: it is a function of the graph alone. (The
